@@ -55,6 +55,7 @@ THEOREMS = [
     "IrVerif.Device.C19_name_frame",
     "IrVerif.Device.C19_names_current",
     "IrVerif.Device.C19_roundtrip_legacy",
+    "IrVerif.Device.C19_inline_remap",
 ]
 ASSUMPTIONS = [
     "graphs nest (a node may own subgraphs - GRAPH and GRAPHS attributes - whose nodes use outer-scope values) and "
@@ -67,6 +68,10 @@ ASSUMPTIONS = [
     "exercised by the oracle-only stream on random models at IR versions 10-12",
     "round trips below IR version 11 (C19_roundtrip_legacy: closed lists, unique names) count as in-alphabet: the "
     "driver evaluates the theorem's hypotheses for every such round trip and reports them through the same `pre` flag",
+    "C19_inline_remap: only the inliner's instantiation of one body node without subgraphs is modelled "
+    "(Cloner.clone_node with a None-valued value map, driver command device.inst, compared with the real "
+    "_cloner.Cloner on random nodes / maps; hypothesis 'specs target inputs/outputs' evaluated per case, key inst_hyp); "
+    "the composition of the pass stays oracle-only",
     "C19_names_current: its hypotheses (a successful rename of v, Pre for every later operation, no later rename of "
     "v) are evaluated on every generated history; for each such (rename, later step) pair every serialized spec that "
     "targets v is compared with the assigned name on the real NodeProtos (histogram key names_current_instances)",
@@ -1675,6 +1680,93 @@ def _rich_worker(arg):
     return part
 
 
+# --------------------------------------------------------------------------- the inliner's instantiation of a body node
+
+
+def _inst_case(r: random.Random):
+    """A function-body node and the value map InlinePass._instantiate_call builds for it: values 0..K-1 are
+    formals / actual arguments / other values, the node's outputs are K..K+nout-1, new outputs start at base."""
+    K = r.choice([2, 3, 4, 5])
+    nout = r.choice([1, 1, 2])
+    ins = [r.choice([None] + list(range(K))) if r.random() < 0.9 else None for _ in range(r.choice([0, 1, 2, 3]))]
+    outs = list(range(K, K + nout))
+    io = [v for v in ins if v is not None] + outs
+    dev = []
+    for c in r.sample([0, 1], r.choice([0, 1, 1, 2])):
+        specs, seen = [], set()
+        for _ in range(r.choice([0, 1, 2, 3])):
+            v = r.choice(io) if (io and r.random() < 0.93) else r.randrange(K + nout)
+            if v in seen:
+                continue
+            seen.add(v)
+            specs.append([v, [r.randrange(2) for _ in range(r.choice([0, 1]))],
+                          [[r.choice([-1, 0, 1]), None, r.choice([1, 2])] for _ in range(r.choice([1, 1, 2]))]])
+        dev.append([c, specs, r.choice([None, 0, 1])])
+    keys = [k for k in range(K) if r.random() < 0.85]  # a missing key: an input without entry raises
+    vm = [[k, (None if r.random() < 0.3 else r.randrange(K))] for k in keys]
+    return {"node": {"i": ins, "o": outs, "d": dev}, "vm": vm, "base": K + nout, "K": K}
+
+
+def _inst_real(case):
+    import onnx_ir as ir
+    from onnx_ir import _cloner
+    from onnx_ir import _multi_device as md
+
+    F = ir.TensorType(ir.DataType.FLOAT)
+    K, nd = case["K"], case["node"]
+    vals = [ir.Value(name=f"v{i}", type=F) for i in range(K)]
+    node = ir.Node("", "Body", [None if i is None else vals[i] for i in nd["i"]], num_outputs=len(nd["o"]), name="body")
+    vals += list(node.outputs)
+    cfgs = [md.ModelConfiguration(name="c0", num_devices=2), md.ModelConfiguration(name="c1", num_devices=2)]
+    recs = []
+    for c, specs, stage in nd["d"]:
+        sp = [md.ShardingSpec(value=vals[v], device=tuple(devs), sharded_dims=tuple(
+            md.ShardedDim(axis=a, simple_shardings=(md.SimpleShardedDim(dim=None, num_shards=k),)) for a, _d, k in dims))
+            for v, devs, dims in specs]
+        recs.append(md.NodeDeviceConfiguration(configuration=cfgs[c], sharding_specs=tuple(sp), pipeline_stage=stage))
+    node.device_configurations = tuple(recs)
+    vm = {vals[k]: (None if t is None else vals[t]) for k, t in case["vm"]}
+    cl = _cloner.Cloner(attr_map={}, value_map=vm, metadata_props={}, resolve_ref_attrs=True)
+    try:
+        n2 = cl.clone_node(node)
+    except RuntimeError:
+        return {"res": "raised"}, None
+    ids = {id(v): i for i, v in enumerate(vals)}
+    for j, o in enumerate(n2.outputs):
+        assert id(o) not in ids
+        ids[id(o)] = case["base"] + j
+    d = [[cfgs.index(nc.configuration) if any(nc.configuration is c for c in cfgs) else -1,
+          [[ids.get(id(s.value), -1), list(s.device),
+            [[sd.axis, None, sd.simple_shardings[0].num_shards] for sd in s.sharded_dims]] for s in nc.sharding_specs],
+          nc.pipeline_stage] for nc in n2.device_configurations]
+    out = {"res": "ok", "node": {"i": [None if v is None else ids.get(id(v), -1) for v in n2.inputs],
+                                 "o": [ids[id(v)] for v in n2.outputs], "d": d, "s": []}}
+    for i in range(len(n2.inputs)):  # do not leave the free node registered as a user
+        n2.replace_input_with(i, None)
+    return out, n2
+
+
+def run_inst(ctx: Ctx, n: int) -> None:
+    """Correspondence + oracle for C19_inline_remap: Cloner.clone_node with the inliner's (None-valued) value map."""
+    cases = [_inst_case(ctx.rng) for _ in range(n)]
+    outs = _lean([{"m": "device.inst", "node": c["node"], "vm": c["vm"], "base": c["base"]} for c in cases])
+    for c, mo in zip(cases, outs):
+        ro, _n2 = _inst_real(c)
+        io = {v for v in c["node"]["i"] if v is not None} | set(c["node"]["o"])
+        hyp = all(sp[0] in io for _c, specs, _s in c["node"]["d"] for sp in specs)  # DevOK's "specs target inputs/outputs"
+        dropped = ro["res"] == "ok" and sum(len(x[1]) for x in ro["node"]["d"]) < sum(len(x[1]) for x in c["node"]["d"])
+        ctx.case(["inst", c], nontrivial=bool(c["node"]["d"]) and ro["res"] == "ok", sample=c, stream="inline-instantiate",
+                 inst_res=ro["res"], inst_hyp=hyp, inst_dropped=dropped)
+        if "err" in mo or mo != ro:
+            ctx.disagree("instNode (Cloner.clone_node with the inliner's value map) differs", {"inst": c}, mo, ro)
+            continue
+        if ro["res"] == "ok" and hyp:
+            nio = {v for v in ro["node"]["i"] if v is not None} | set(ro["node"]["o"])
+            if any(sp[0] not in nio for _c, specs, _s in ro["node"]["d"] for sp in specs):
+                ctx.fail("inline: dangling-spec after instantiating a body node",
+                         "a spec of the instantiated node targets a value that is not an input/output of it", {"inst": c})
+
+
 def run(ctx: Ctx) -> None:
     logging.disable(logging.CRITICAL)
     ctx.rule = (
@@ -1702,11 +1794,21 @@ def run(ctx: Ctx) -> None:
     rjobs = [(ctx.rng.randrange(1 << 40), min(20, n_rich - i), ctx.pick(30, 45)) for i in range(0, n_rich, 20)]
     for part in pmap(_rich_worker, rjobs):
         ctx.merge(part)
+    # the inliner's instantiation of a body node (C19_inline_remap)
+    run_inst(ctx, ctx.pick(600, 6000))
 
 
 def replay(ctx: Ctx, obj: dict) -> None:
     logging.disable(logging.CRITICAL)
     case = obj.get("case", obj)
+    if "inst" in case:
+        c = case["inst"]
+        mo = _lean([{"m": "device.inst", "node": c["node"], "vm": c["vm"], "base": c["base"]}])[0]
+        ro, _ = _inst_real(c)
+        ctx.case(["inst", c], nontrivial=True, stream="corpus")
+        if mo != ro:
+            ctx.disagree("instNode differs (corpus)", {"inst": c}, mo, ro)
+        return
     ops = case.get("ops") or case.get("history", {}).get("ops")
     if ops is None:
         # a case recorded without its operations (rich stream, harness exception): regenerate it from the seed
